@@ -217,6 +217,59 @@ def run_case(a):
         common.rmtree(root)
 
 
+RO_ROOT = ["unshare", "-m", "-r", "bash", "-c", 'mount --bind / / 2>/dev/null; mount -o remount,bind,ro / 2>/dev/null; exec "$@"', "bash"]
+
+
+def run_degenerate_output(a):
+    """an output path that is empty (or only dots / slashes of the current directory): the output directory is then the working
+    directory, or the setting is refused — but nothing is written anywhere else. The run happens in a private mount namespace whose
+    root file system is read-only (the scratch area under /dev/shm stays writable), so a write that strays outside fails loudly
+    instead of littering the machine."""
+    cli, drv, spelling, via, mode = a
+    root = common.scratch("c16e")
+    try:
+        probe = common.run(RO_ROOT + ["true"], cwd=root)
+        if probe.rc != 0:
+            return {"skip": "no private mount namespace available"}
+        src = os.path.join(root, "proj", "src-tauri")
+        common.write_tree(src, [("lib.rs", "#[tauri::command]\npub fn only_cmd(id: i32) -> i32 { id }\n")])
+        cwd = os.path.join(root, "proj", "work")
+        os.makedirs(cwd)
+        open(os.path.join(cwd, "keep.txt"), "w").write("foreign")
+        if via == "config-file":
+            json.dump({"project_path": src, "output_path": spelling, "validation_library": mode}, open(os.path.join(cwd, "cfg.json"), "w"))
+            argv = [cli, "tauri-typegen", "generate", "-c", "cfg.json"]
+        elif via == "tauri.conf.json":
+            json.dump({"productName": "x", "plugins": {"typegen": {"projectPath": src, "outputPath": spelling, "validationLibrary": mode}}}, open(os.path.join(cwd, "tauri.conf.json"), "w"))
+            argv = [cli, "tauri-typegen", "generate"]
+        else:
+            json.dump({"productName": "x", "plugins": {"typegen": {"projectPath": src, "outputPath": spelling, "validationLibrary": mode}}}, open(os.path.join(cwd, "tauri.conf.json"), "w"))
+            argv = [drv, "build"]
+        before = fsmon.snapshot(root)
+        r = common.run(RO_ROOT + argv, cwd=cwd)
+        after = fsmon.snapshot(root)
+        if r.timed_out:
+            return {"inconclusive": "watchdog"}
+        viol = []
+        label = "output path %r via %s" % (spelling, via)
+        text = r.err + r.out
+        if "Read-only file system" in text or "os error 30" in text:
+            viol.append(("C16 write-outside-output-dir degenerate-output-path via=%s" % via, "%s: the run tried to write outside the writable scratch area: %s" % (label, text.strip()[-160:])))
+        d = fsmon.diff(before, after)
+        for kind in ("created", "deleted", "modified"):
+            for rel in d[kind]:
+                inside = os.path.normpath(os.path.join(root, rel)).startswith(cwd + os.sep)
+                name = os.path.basename(rel)
+                ok = inside and os.path.dirname(os.path.normpath(os.path.join(root, rel))) == cwd and (name.split(".")[0] in RESERVED_BASE or name == ".typecache" or name == ".write_test")
+                if via == "build-script" and rel == "proj/work/tauri.conf.json":
+                    ok = True
+                if not ok:
+                    viol.append(("C16 %s outside-output-dir degenerate-output-path via=%s" % (kind, via), "%s (cwd proj/work): %s %s" % (label, kind, rel)))
+        return {"viol": viol, "rc": r.rc, "label": label}
+    finally:
+        common.rmtree(root)
+
+
 def classify(rel, outnorm, srcrel):
     d, name = os.path.split(os.path.normpath(rel))
     if os.path.normpath(d) == outnorm:
@@ -254,6 +307,19 @@ def run(tier):
             v.violation(sig, what, wit)
     v.extra["layout_x_path_combinations_covered"] = len(combos)
     v.extra["strace_available"] = fsmon.STRACE is not None
+    djobs = [(cli, drv, sp, via, "zod" if k % 2 else "none") for k, (sp, via) in enumerate(
+        (sp, via) for sp in ("", ".", "./", "./.", "") for via in ("config-file", "tauri.conf.json", "build-script"))]
+    for (job, r) in zip(djobs, common.pmap(run_degenerate_output, djobs)):
+        if "skip" in r:
+            v.extra["degenerate_output_paths"] = r["skip"]
+            break
+        if "inconclusive" in r:
+            v.inconclusive.append(r["inconclusive"])
+            continue
+        v.case(("degenerate-output-path", job[2], job[3]), nontrivial=True)
+        v.count("degenerate_output_path_runs")
+        for (sig, what) in r["viol"]:
+            v.violation(sig, what, {"output_path": job[2], "via": job[3], "mode": job[4], "note": "run inside `unshare -m -r` with a read-only root"})
     rule = ("a case is one sandbox: a project, an output directory in one of 5 placements (inside / beside / equal to the project, deep, via ..) "
             "pre-populated with 3-14 foreign and near-miss files, symlinks and stale reserved files, driven through 2-3 runs of one entry path "
             "(CLI absolute / relative / config file, init, build script) including runs that find no commands and mode switches; non-trivial = "
